@@ -22,7 +22,7 @@ pub const VAR_TOKENS: &[&str] = &[
 ];
 
 /// parameters giving every kind of local variable (non-constant operands)
-pub const PARAMS: &str = "x: int, f: (int)->int, it: ()->(bool, int), c: mut int, t: (int, string), s: struct{a: int}, a: [int], u: int|string, fl: float, st: string, b: bool, an: any, g: (int|string)->(int|float), m: mut (int|string), aa: [any], tt: (int, string)|(float, string), h: ()->(), fi: ()->(bool, float), ss: ()->(bool, string), bi: ()->(bool, bool), nv: ()->!, e0: [], en: ()->(bool, !)";
+pub const PARAMS: &str = "x: int, f: (int)->int, it: ()->(bool, int), c: mut int, t: (int, string), s: struct{a: int}, a: [int], u: int|string, fl: float, st: string, b: bool, an: any, g: (int|string)->(int|float), m: mut (int|string), aa: [any], tt: (int, string)|(float, string), h: ()->(), fi: ()->(bool, float), ss: ()->(bool, string), bi: ()->(bool, bool), nv: ()->!, e0: [], en: ()->(bool, !), um: mut int | mut float, ua: [int] | string";
 /// the subset the token alphabet can name (keeps the exhaustive enumeration cheap)
 pub const PARAMS_SHORT: &str = "x: int, f: (int)->int, it: ()->(bool, int), c: mut int, t: (int, string), s: struct{a: int}, a: [int], u: int|string";
 /// the same names as constants (fold paths)
@@ -127,7 +127,7 @@ impl<'a> Ctx<'a> {
 // ---------------------------------------------------------------------------------------------
 // (b) grammar-directed generation that ignores types
 
-const IDENTS: &[&str] = &["x", "f", "it", "c", "t", "s", "a", "u", "fl", "st", "b", "an", "g", "m", "aa", "tt", "h", "fi", "ss", "bi", "nope", "nv", "e0", "en", "nv()", "e0[0]", "[][x]", "([]~)().1"];
+const IDENTS: &[&str] = &["x", "f", "it", "c", "t", "s", "a", "u", "fl", "st", "b", "an", "g", "m", "aa", "tt", "h", "fi", "ss", "bi", "nope", "nv", "e0", "en", "um", "ua", "*um", "nv()", "e0[0]", "[][x]", "([]~)().1"];
 const TYPES: &[&str] = &["int", "float", "string", "bool", "any", "()", "[int]", "[any]", "(int, string)", "int|string", "mut int", "()->(bool, int)", "(int)->int", "struct{a: int}", "!", "[]", "mut (int|string)", "(int|float, bool)"];
 const BINOPS: &[&str] = &["+", "-", "*", "/", "%", "**", "<<", ">>", "&", "|", "^", "==", "!=", "<", "<=", ">", ">=", "&&", "||", "=", "+=", "-=", "*=", "/=", "%=", "**=", "<<=", ">>=", "&=", "|=", "^=", "@", "?", "\\"];
 const POSTFIX: &[&str] = &["$+", "$*", "$&&", "$||", "$&", "$|", "$]", "~", ".0", ".1", ".a", "()", "(1)", "(x)", "(x, 2)", "[0]", "[x]", "[-1]", "[1:]", "[:2]", "[::2]", "[1:2:1]", "[:]", "[::]", "? int", "? string", "? [int]", "? !"];
